@@ -294,13 +294,13 @@ func writeEvidence(verifDir string, spec *propertySpec, tier string, seed int64,
 		p = results[0].Ctx.P
 	}
 	cov := map[string]any{
-		"explanation": spec.Explanation,
-		"obligations": obls,
-		"discharged":  disch,
+		"explanation":    spec.Explanation,
+		"obligations":    obls,
+		"discharged":     disch,
 		"known_findings": knownN,
-		"rules":       rules,
-		"samples":     samples,
-		"checker_cmd": fmt.Sprintf("/verif/bin/sonicsa check -p %s -tier %s", spec.ID, tier),
+		"rules":          rules,
+		"samples":        samples,
+		"checker_cmd":    fmt.Sprintf("/verif/bin/sonicsa check -p %s -tier %s", spec.ID, tier),
 		"trusted_base": []string{
 			"go/types and go/ssa of golang.org/x/tools v0.50.0 (vendored), Go 1.26.8 front end",
 			"the frozen reference tables in the checker (RFC 6455 framing constants and close codes, Linux IP_* option numbers, epoll HUP/ERR semantics)",
